@@ -244,7 +244,46 @@ fn run_api_case(case: &Val) -> Val {
             Arc::new(table::Roa::new(r.at(1).u8(), r.at(2).u32(), cache.clone())),
         ));
     }
-    tables.rpki_insert(v);
+    // The VRP set of the case is installed through one of several histories of the daemon's own
+    // calls (rpki_insert / rpki_withdraw / rpki_reset / rpki_drop_all) that all END in exactly that
+    // set for this cache: whatever an earlier step leaves behind by mistake is a "junk" VRP that covers
+    // every route of its family with an AS no route uses, so it turns NotFound / Valid into Invalid
+    // and the per-path oracle sees it.  The history is picked by the size of the case.
+    {
+        let junk = |c: &Arc<IpAddr>| -> Vec<(packet::IpNet, Arc<table::Roa>)> {
+            vec![
+                (packet::IpNet::new(IpAddr::V4(Ipv4Addr::new(0, 0, 0, 0)), 0), Arc::new(table::Roa::new(32, 64999, c.clone()))),
+                (
+                    packet::IpNet::new(IpAddr::V6(std::net::Ipv6Addr::UNSPECIFIED), 0),
+                    Arc::new(table::Roa::new(128, 64999, c.clone())),
+                ),
+            ]
+        };
+        let other = Arc::new(IpAddr::V4(Ipv4Addr::new(192, 0, 2, 2)));
+        match (case.at(0).list().len() + case.at(1).list().len()) % 5 {
+            1 => {
+                tables.rpki_reset(cache.clone(), junk(&cache));
+                tables.rpki_reset(cache.clone(), v);
+            }
+            2 => {
+                let mut all = junk(&cache);
+                all.extend(v);
+                tables.rpki_reset(cache.clone(), all);
+                tables.rpki_withdraw(junk(&cache));
+            }
+            3 => {
+                tables.rpki_reset(cache.clone(), junk(&cache));
+                tables.rpki_reset(cache.clone(), Vec::new());
+                tables.rpki_insert(v);
+            }
+            4 => {
+                tables.rpki_insert(junk(&other));
+                tables.rpki_insert(v);
+                tables.rpki_drop_all(other.clone());
+            }
+            _ => tables.rpki_insert(v),
+        }
+    }
     let mut sources: std::collections::HashMap<usize, Arc<table::Source>> = std::collections::HashMap::new();
     let mut paths: Vec<(packet::Family, packet::Nlri, Arc<table::Source>, u32, bool)> = Vec::new();
     for (i, r) in case.at(1).list().iter().enumerate() {
